@@ -82,7 +82,14 @@ def run_file(path, label, n_random, preload=False, extra=()):
         exp = [(0, 4096)] + ([(0, 4096 * fut.spec.nhb)] if fut.spec.nhb != 1 else [])
         if not preload and opens[:len(exp)] != exp:
             R.violation('oracle', {'file': label, 'op': 'open'}, f'opening read {opens[:4]}, expected {exp}')
-    for method, args in list(extra) + list(calls_for(rng, fut, n_random)):
+    slabs = []
+    if not fut.spec.is2d and a.pid in ('C02', 'C01'):
+        # a cube read slab by slab (consecutive calls with the SAME extent, earlier results still held by the caller)
+        ni_, nx_, ns_ = fut.spec.n_il, fut.spec.n_xl, fut.spec.n_s
+        w_ = max(4, fut.spec.bs[0])
+        slabs = [('read_subvolume', (i_, i_ + w_, 0, nx_, 0, ns_)) for i_ in range(0, ni_ - w_ + 1, w_)][:3]
+        slabs = slabs if len(slabs) >= 2 else []
+    for method, args in list(extra) + list(calls_for(rng, fut, n_random)) + slabs:
         want = fut.oracle(method, args)
         oob = (want[0] == 'err')
         if a.pid == 'C14' and not oob and rng.random() < 0.8:
@@ -105,6 +112,12 @@ def run_file(path, label, n_random, preload=False, extra=()):
                sample={'file': label, 'call': method, 'args': list(args), 'expected': want[1] if oob else 'data'})
         if not ok:
             R.violation(kind, {'file': label, 'call': method, 'args': list(args), 'path': path}, detail)
+        if getattr(fut, 'alias', None):
+            m0_, a0_, m1_, a1_ = fut.alias
+            R.violation('oracle', {'file': label, 'call': m0_, 'args': a0_, 'then': [m1_, a1_], 'path': path},
+                        f'the array returned by {m0_}{tuple(a0_)} was overwritten in place by the later call {m1_}{tuple(a1_)} on the same reader')
+            fut.alias = None
+            fut._held.clear()
         if a.pid == 'C07' and want[0] == 'val' and not preload:
             got, io = fut.impl(method, args)
             msg = io_oracle(fut, method, args, io)
@@ -196,7 +209,11 @@ try:
     nshapes = 1 if quick else 4
     # always: a default-layout file whose traces span SEVERAL z-blocks (bs2 = 64 at 32 bit) and a z-slice-layout file
     multi_z = [('multi-z', 32, (4, 4, -1), (rng.choice([5, 6, 9]), rng.choice([7, 10, 13]), rng.choice([65, 67, 128, 129, 131]))),
-               ('multi-z', 2, (64, 64, 4), (rng.choice([5, 66]), rng.choice([6, 65]), rng.choice([9, 13])))]
+               ('multi-z', 2, (64, 64, 4), (rng.choice([5, 66]), rng.choice([6, 65]), rng.choice([9, 13]))),
+               # first block dimension 4 but NOT the default layout, traces longer than one block: every reader that has a
+               # fast path for "groups of 4 lines" must not take it here
+               ('4xNxM multi-z', 8, (4, 8, 128), (rng.choice([5, 9]), rng.choice([9, 11]), rng.choice([130, 200]))),
+               ('Nx4xM multi-z', 4, (8, 4, 256), (rng.choice([9, 11]), rng.choice([5, 9]), rng.choice([258, 300])))]
     for tag, bpv, bs, shape in multi_z:
         bsr = szutils.define_blockshape_3d(bpv, bs)[1]
         p, arr = make_3d_file(rng, d, shape, bpv, bs)
